@@ -370,6 +370,22 @@ PROPS = {
         "verus": [V("session")],
         "not_decided": ["SessionRequest::new / url crate", "driver reaction to refused requests"],
     },
+    "C19": {
+        "level": "proof",
+        "claim": "Only the generation half of the property, for every input (Verus unit self_signed on the extracted builder bodies): the self-signed identity builder asks the certificate generator for an ECDSA P-256 key pair and nothing else, hands it exactly the requested subject alternative names, not_before and not_after (from_now_utc reads the clock once; validity_days(d) / offset_from_not_before(o) give not_after = not_before + d days / + o), fails with InvalidSan exactly when the generator rejects the names, and returns the signed certificate as a one-element chain together with that same key pair's PKCS#8 key; Identity::self_signed requests a window that starts now and lasts 14 days.",
+        "note": "Assumed stand-ins: rcgen (key generation for the named algorithm, typing each SAN as DNS name or IP address, X.509v3 encoding, signing), time (clock, date arithmetic), rustls-pki-types wrappers. NOT decided (no contract within reach: file I/O, PEM text, format!/split/parse string processing - Verus has no str byte reasoning and format! on 32 symbolic bytes is beyond CBMC): PEM store-then-load round trips, SHA-256 digest text round trips in both formats, rejection of malformed PEM/DER/digest text, that the generated certificate is accepted by hash pinning with its own hash (C10 decides the verifier's logic given the certificate's fields). The generic SAN collection (IntoIterator + map + collect) is replaced by an already collected Vec<String>.",
+        "kani": [],
+        "verus": [V("self_signed")],
+        "not_decided": ["PEM round trips", "digest text round trips", "malformed input rejection", "X.509 encoding (rcgen)"],
+    },
+    "C20": {
+        "level": "proof",
+        "claim": "Configuration builders, for every input (Verus units config, tls_config on the extracted builder bodies): each documented bind option yields exactly its address family, address, port and dual-stack mode (V4: IPv4 only; V6: IPv6 with IPV6_V6ONLY; Dual: IPv6 with dual stack allowed; Local = loopback, InAddrAny = unspecified; explicit addresses and sockets are stored as given; the client binds port 0); max_idle_timeout stores exactly the requested duration and REFUSES (Err(InvalidIdleTimeout), nothing altered) exactly the durations that do not fit a QUIC varint of milliseconds; keep_alive_interval and allow_migration store exactly the requested value and change nothing else; build() hands the stored bind configuration, endpoint configuration, TLS configuration, transport configuration and migration flag to the QUIC configuration unchanged; the default TLS configurations (server and client) enable TLS 1.3 only and advertise exactly the ALPN list [h3] (token value proved on the real crate by Kani), and a custom certificate verifier is installed iff one is given.",
+        "note": "Assumed stand-ins: std::net address types (concrete model), std::time::Duration, quinn TransportConfig / ServerConfig / ClientConfig / IdleTimeout::try_from (records of what their setters were given; the 2^62 ms bound of IdleTimeout is quinn's), rustls config builders (record versions / verifier / ALPN), <[T]>::to_vec, Option::transpose. NOT decided: BindAddressConfig::bind_socket (socket2 system calls), that quinn and rustls honour the configuration objects, reloading a server configuration, the with_identity / with_native_certs / with_server_certificate_hashes wrappers (iterator adapters, native cert store).",
+        "kani": [K("p_alpn_is_h3", "ALPN token is h3", [P + "lib.rs::WEBTRANSPORT_ALPN"])],
+        "verus": [V("config"), V("tls_config")],
+        "not_decided": ["bind_socket system calls", "quinn/rustls applying the configuration", "configuration reload"],
+    },
 }
 for _p in PROPS.values():
     _p.setdefault("technique", TECH)
@@ -424,8 +440,6 @@ NOT_APPLICABLE = {
     "C07": "liveness/independence over task interleavings (stalled streams never block others): whole-history concurrency property, outside contract-based deductive verification (no Kani threads, Verus would need permission types on tokio internals).",
     "C08": "exactly-once delivery over mpsc queues, cancellation and multi-task accept: whole-history concurrency property, no per-call contract expresses it.",
     "C09": "prompt, total termination over all pending futures: liveness + concurrency over tokio/quinn, not a per-call contract.",
-    "C19": "rcgen/x509/PEM file I/O and format!/split/parse string processing: Verus has no str byte reasoning and format! on 32 symbolic bytes is beyond CBMC.",
-    "C20": "decided only by binding sockets and inspecting negotiated connections (quinn/rustls configuration objects); no contract within reach.",
 }
 
 
